@@ -30,16 +30,19 @@ def compare_batch(out: Outcome, runners: list[dets.Runner], rtol: float = 1e-9, 
     validated = []
     for r, (a, b) in zip(runners, spans):
         ok_steps = 0
+        r.mismatch_at = r.tie_at = None
         for k, (impl, modl) in enumerate(zip(r.obs, res[a:b])):
             toks = modl.split(" ")
             tie = toks[-1] == "tie=1"
             toks = toks[:-1]
             if tie:
+                r.tie_at = k
                 out.excluded_near_tie += 1
                 out.count("traces_truncated_at_tie")
                 break
             same, why = cmp_tokens(impl, toks, rtol)
             if not same:
+                r.mismatch_at = k
                 out.mismatch(f"{label}{r.cls}: model and implementation differ at operation {k}: {why}",
                              {"class": r.cls, "params": r.params, "lines": r.lines[: k + 1], "impl_obs": impl,
                               "model_obs": toks, "operation_index": k})
